@@ -42,7 +42,8 @@ NOTES = {
     'C04_7': 'the raw header is C08\'s observation point (C04 compares model, Python statics and encoded_byte_size)',
     'C08_6': 'needs an included file: C16 compares the model nodes of the multi-file build with the single-file build',
     'C14_5': 'right shift of negative values admitted to the expression universe (was excluded together with negative division)',
-    'C15_5': 'include shadowing family: a file that redefines a struct / constant of a file it includes, every order',
+    'C15_5': 'include shadowing family: a file that redefines a struct / constant of a file it includes, every order '
+             '(since fix ab80506 the pinned suite rejects this change itself; kept for the record)',
     'C15_6': 'expression forms that start with a literal (2*K, 1 + E_V)',
     'C15_7': 'one name defined twice in one file (isar lists both), every order: each body may only name what stands above it',
     'C16_5': 'arrangement with a library directory and decoy files next to the main file, main file compiled alone '
